@@ -31,6 +31,7 @@ def main(tier):
     chk.run("R-WINDOW", WN.window, cx.cpp, floor=5)
     chk.run("R-NARROWARG", C.narrowarg, cx.cpp, floor=9)
     chk.run("R-VIRTNARROW", B.virtnarrow, cx.repo, floor=5)
+    chk.run("R-ARRAYSTORAGE", C.arraystorage, cx.repo, floor=12)
     chk.run("R-NARROWLIT", CR.narrowlit, cx.cpp, skip=r"IsBcd|ConvertToBinary|^Read|UncheckedRead", floor=10)
     chk.run("R-LOOPCOVER", CR.loopcover, cx.cpp, methods=("ConvertToBcd",), floor=64)
     chk.run("R-CPPRANGE", CR.cpprange, cx.cpp, floor=2000)
